@@ -938,7 +938,25 @@ func (tc *typechecker) binaryOp(expr1 ast.Expression, op ast.OperatorType, expr2
 			}
 		}
 
-		c, err := t1.Constant.binaryOp(op, t2.Constant)
+		c1 := t1.Constant
+		if !isShift && !isStringContains {
+			kind := t1.Type.Kind()
+			if t1.Untyped() && kind < t2.Type.Kind() {
+				kind = t2.Type.Kind()
+			}
+			// The operator must be defined on the type of the operands,
+			// whatever the representation of their values is.
+			if !t1.Untyped() && !operatorsOfKind[kind][op] {
+				return nil, fmt.Errorf("operator %s not defined on %s", op, t1.ShortString())
+			}
+			// The division of floating-point and complex constants is not
+			// the integer division, even if their values are integers.
+			if op == ast.OperatorDivision && !isInteger(kind) {
+				c1 = asFloatingPoint(c1)
+			}
+		}
+
+		c, err := c1.binaryOp(op, t2.Constant)
 		if err != nil {
 			switch err {
 			case errInvalidOperation:
@@ -975,6 +993,10 @@ func (tc *typechecker) binaryOp(expr1 ast.Expression, op ast.OperatorType, expr2
 			typ = boolType
 		} else if !isShift && t1.Untyped() && t1.Type.Kind() < t2.Type.Kind() {
 			typ = t2.Type
+		} else if isShift && t1.Untyped() && !isInteger(t1.Type.Kind()) {
+			// The shifted operand is an untyped constant representable by an
+			// integer: the result is an untyped integer constant.
+			typ = intType
 		}
 		ti := &typeInfo{Type: typ, Constant: c}
 		if t1.Untyped() || isComparison(op) {
